@@ -48,6 +48,9 @@ func RunRen(rect image.Rectangle, samples []image.Point, ops []Call) (obs string
 		case "rn":
 			rec.Log = append(rec.Log, fmt.Sprintf("s=%d", z.NSel()))
 		case "rlod", "bytes", "hires":
+		case "rast":
+			rec.Fresh()
+			z.SetRasterizer(rec, op.Rect)
 		default:
 			op.Apply(&z)
 		}
